@@ -340,6 +340,10 @@ class Models:
             return self.truth(n, node)
         if type(v).__name__ == "IterV":
             return True
+        if type(v).__name__ == "DictV":
+            if getattr(v, "opaque_updates", None):
+                self.I.unsupported(node, "truth of a dict with opaque content")
+            return bool(self.dict_view(v, node)) if hasattr(self, "dict_view") else bool(v.items)
         if isinstance(v, TermV):
             return not self.term_is_empty(v, node)
         if isinstance(v, OpaqueV):
@@ -649,6 +653,20 @@ class Models:
                                 init_v = ListV([])
                             elif isinstance(val, ast.Dict) and not val.keys:
                                 init_v = DictV()
+                            elif isinstance(val, ast.Call) and not any(isinstance(x, ast.Name) and x.id in ("cls", "self", "name", "bases", "clsdict")
+                                                                       for x in ast.walk(val)):
+                                # computed when the class was created (an earlier moment than the call analysed): ambient
+                                # state read then is stale now
+                                from .interp import Frame
+                                self.st.at_class_creation = True
+                                self.I.frames.append(Frame(None, mfi.module, None, {}))
+                                try:
+                                    init_v = self.I.eval(val)
+                                except Unsupported:
+                                    init_v = None
+                                finally:
+                                    self.I.frames.pop()
+                                    self.st.at_class_creation = False
                             if init_v is not None:
                                 self.st.cls_fields[(self.st.tfind(obj.tid), attr)] = init_v
                                 return init_v
@@ -715,6 +733,20 @@ class Models:
             if attr == "groups":
                 return NativeV(lambda a, k, n, m=obj: TupleV([self.match_group(m, self.num_const(i), n)
                                                               for i in range(1, m.profile["groups"] + 1)]), "match.groups")
+            if attr in ("start", "end") and obj.concrete is None:
+                # a position inside an opaque text
+                return NativeV(lambda a, k, n, what=attr: Num(RF.atom(("k", f"match.{what}@{getattr(n, 'lineno', '?')}")), "int"),
+                               f"match.{attr}")
+            if attr in ("start", "end", "span") and obj.concrete is not None:
+                def pos(a, k, n, m=obj, what=attr):
+                    g = 0
+                    if a:
+                        g = a[0].const if isinstance(a[0], StrV) else int(self.st.norm(a[0].rf).const_value())
+                    r_ = getattr(m.concrete, what)(g)
+                    if isinstance(r_, tuple):
+                        return TupleV([self.num_const(x) for x in r_])
+                    return self.num_const(r_)
+                return NativeV(pos, f"match.{attr}")
             if attr == "groupdict":
                 def gd(a, k, n, m=obj):
                     d = DictV()
@@ -1515,6 +1547,10 @@ class Models:
                      name="tbl:" + uid)
 
     def get_slice(self, obj, lo, hi, node, step=None):
+        if isinstance(obj, StrV) and obj.const is None and step is None and any(
+                isinstance(x, Num) and not self.st.norm(x.rf).is_const() for x in (lo, hi) if x is not None):
+            return StrV(None, f"{obj.tag}[slice]")      # a piece of an opaque text cut at a computed position
+
         def idx(x):
             if x is None or isinstance(x, NoneV):
                 return None
